@@ -14,7 +14,7 @@ LSEED=$(( (SEED % 2147483000) + 1 ))
 TD=/verif/target/fuzz
 mkdir -p /verif/work /verif/replays/C08 /verif/replays/C07
 cd /verif/harness || exit 2
-if [ "$T" = all ]; then TARGETS="parse_op parse_schema pipeline structured config"; else TARGETS="$T"; fi
+if [ "$T" = all ]; then TARGETS="parse_op parse_schema pipeline structured config json_schema"; else TARGETS="$T"; fi
 PROP="${VH_FUZZ_PROPERTY:-C08}"
 mkdir -p "/verif/replays/$PROP"
 LOG=/verif/work/fuzz-build.$$.log
@@ -41,7 +41,8 @@ for t in $TARGETS; do
     # divided over the J processes
     case $t in structured) R=$((RUNS/20));; pipeline) R=$((RUNS/4));; loader_history) R=$((RUNS/8));; *) R=$RUNS;; esac
     R=$(( (R + J - 1) / J ))
-    "$BIN/$t" "$C" -runs="$R" -seed="$((LSEED + 7919 * (j - 1)))" -len_control=0 -max_len=8192 -timeout=30 -rss_limit_mb=4096 -detect_leaks=0 \
+    ML=8192; [ "$t" = json_schema ] && ML=16384
+    "$BIN/$t" "$C" -runs="$R" -seed="$((LSEED + 7919 * (j - 1)))" -len_control=0 -max_len=$ML -timeout=30 -rss_limit_mb=4096 -detect_leaks=0 \
         -artifact_prefix="$A" -print_final_stats=1 >"$L" 2>&1
     code=$?
     execs=$(grep -E "stat::number_of_executed_units" "$L" | awk '{print $2}')
